@@ -191,6 +191,33 @@ Definition alt_sel (s : rst) (fromb : bool) (c : list mhk) : option (list mhk * 
                  end
        end.
 
+(* EAltWrite: one committed batch of the reset in the alternate slot *)
+Definition alt_write (pb : nat) (s : rst) (fromb : bool) (c : list mhk) : option rst :=
+  let sel := alt_sel s fromb c in
+  match c, sel with
+  | _ :: _, Some (loc, drn, buf) =>
+      if r_counted s then
+        match put_scan seen_dedups pb (alternate s) NoFault c [] 0 with
+        | Some (b, nw) =>
+            Some {| r_j := gappend (r_j s) (negb (r_active s)) b; r_synced := r_synced s;
+                    r_active := r_active s; r_size := r_size s;
+                    r_alt := r_alt s + Z.of_nat (length nw);
+                    r_rip := r_rip s; r_buf := buf; r_wk := r_wk s; r_ph := r_ph s;
+                    r_todo := r_todo s; r_loc := loc; r_drn := drn; r_counted := true; r_closed := false;
+                    r_a0 := r_a0 s; r_old := r_old s; r_new := r_new s; r_acked := r_acked s;
+                    r_flipped := r_flipped s |}
+        | None => None
+        end
+      else
+        Some {| r_j := gappend (r_j s) (negb (r_active s)) (blind_ops pb c); r_synced := r_synced s;
+                r_active := r_active s; r_size := r_size s; r_alt := r_alt s;
+                r_rip := r_rip s; r_buf := buf; r_wk := r_wk s; r_ph := r_ph s;
+                r_todo := r_todo s; r_loc := loc; r_drn := drn; r_counted := false; r_closed := false;
+                r_a0 := r_a0 s; r_old := r_old s; r_new := r_new s; r_acked := r_acked s;
+                r_flipped := r_flipped s |}
+  | _, _ => None
+  end.
+
 Definition rstep (pb : nat) (s : rst) (e : revent) : option rst :=
   if r_closed s then
     match e with
@@ -295,31 +322,7 @@ Definition rstep (pb : nat) (s : rst) (e : revent) : option rst :=
       end
   | EAltWrite fromb c =>
       match r_ph s with
-      | PFilling | PClean0 =>
-          let sel := alt_sel s fromb c in
-          match c, sel with
-          | _ :: _, Some (loc, drn, buf) =>
-              if r_counted s then
-                match put_scan seen_dedups pb (alternate s) NoFault c [] 0 with
-                | Some (b, nw) =>
-                    Some {| r_j := gappend (r_j s) (negb (r_active s)) b; r_synced := r_synced s;
-                            r_active := r_active s; r_size := r_size s;
-                            r_alt := r_alt s + Z.of_nat (length nw);
-                            r_rip := r_rip s; r_buf := buf; r_wk := r_wk s; r_ph := r_ph s;
-                            r_todo := r_todo s; r_loc := loc; r_drn := drn; r_counted := true; r_closed := false;
-                            r_a0 := r_a0 s; r_old := r_old s; r_new := r_new s; r_acked := r_acked s;
-                            r_flipped := r_flipped s |}
-                | None => None
-                end
-              else
-                Some {| r_j := gappend (r_j s) (negb (r_active s)) (blind_ops pb c); r_synced := r_synced s;
-                        r_active := r_active s; r_size := r_size s; r_alt := r_alt s;
-                        r_rip := r_rip s; r_buf := buf; r_wk := r_wk s; r_ph := r_ph s;
-                        r_todo := r_todo s; r_loc := loc; r_drn := drn; r_counted := false; r_closed := false;
-                        r_a0 := r_a0 s; r_old := r_old s; r_new := r_new s; r_acked := r_acked s;
-                        r_flipped := r_flipped s |}
-          | _, _ => None
-          end
+      | PFilling | PClean0 => alt_write pb s fromb c
       | _ => None
       end
   | EAltSync =>
